@@ -99,11 +99,7 @@ func (i IRI) MarshalJSON() ([]byte, error) {
 	if i == "" {
 		return nil, nil
 	}
-	b := make([]byte, 0)
-	JSONWrite(&b, '"')
-	JSONWriteS(&b, i.String())
-	JSONWrite(&b, '"')
-	return b, nil
+	return jsonString(i.String()), nil
 }
 
 // UnmarshalBinary implements the encoding.BinaryUnmarshaler interface.
@@ -216,9 +212,7 @@ func (i IRIs) MarshalJSON() ([]byte, error) {
 	JSONWrite(&b, '[')
 	for k, iri := range i {
 		writeCommaIfNotEmpty(k > 0)
-		JSONWrite(&b, '"')
-		JSONWriteS(&b, iri.String())
-		JSONWrite(&b, '"')
+		JSONWrite(&b, jsonString(iri.String())...)
 	}
 	JSONWrite(&b, ']')
 	return b, nil
